@@ -60,8 +60,9 @@ def u32Of (arch : Nat) : Bytes → Option Nat
                           else d + 256 * c + 65536 * b + 16777216 * a)
   | _ => none
 
-/-- `mesg.FieldValueByNum(253).Uint32()`: the first field numbered 253; anything that is not a
-`TypeUint32` value reads as the invalid sentinel. -/
+/-- the timestamp of a message as the property reads it — `mesg.FieldValueByNum(253).Uint32()`: the first
+field numbered 253; anything that is not a `TypeUint32` value reads as the invalid sentinel. (The encoder's
+own reading, `encTsOf`, additionally wants the declared base type to be uint32/uint32z.) -/
 def tsOf (arch : Nat) (m : WMsg) : Nat :=
   match m.fields.find? (·.num == tsFieldNum) with
   | some f => if f.tag == tagUint32 then (u32Of arch f.data).getD u32Invalid else u32Invalid
@@ -72,14 +73,34 @@ def removeFirst (num : Nat) : List WField → List WField
   | [] => []
   | f :: fs => if f.num == num then fs else f :: removeFirst num fs
 
-/-- `compressTimestampIntoHeader`: new timestamp reference and, when the timestamp goes into the
-header, the 5-bit time offset. -/
-def compressTs (arch tsRef : Nat) (m : WMsg) : Nat × Option Nat :=
-  let ts := tsOf arch m
-  if ts == u32Invalid then (tsRef, none)
-  else if ts < dateTimeMin then (tsRef, none)
-  else if (ts + 4294967296 - tsRef) % 4294967296 > 31 then (ts, none)
-  else (tsRef, some (ts % 32))
+/-- a field 253 whose decoding every decoder agrees on: a `TypeUint32` value (four bytes) declared with base
+type uint32 or uint32z — its value; `none` for anything else (`field.Value.Type() == proto.TypeUint32 &&
+(field.BaseType == basetype.Uint32 || field.BaseType == basetype.Uint32z)`) -/
+def cleanTs (arch : Nat) (f : WField) : Option Nat :=
+  if f.tag == tagUint32 && (f.bt == 0x86 || f.bt == 0x8C) then u32Of arch f.data else none
+
+/-- the loop of `compressTimestampIntoHeader` over the message's fields, as far as `e.lastTimestamp` goes:
+every field 253 sets it, to its value when it is a plain uint32, else to 0 ("cannot be told") -/
+def trackLast (arch : Nat) (last : Nat) (fs : List WField) : Nat :=
+  fs.foldl (fun last f => if f.num == tsFieldNum then (cleanTs arch f).getD 0 else last) last
+
+/-- the same loop as far as `timestamp` goes: the value of the FIRST field 253 when that is a plain uint32,
+else the invalid sentinel -/
+def encTsOf (arch : Nat) (m : WMsg) : Nat :=
+  match m.fields.find? (·.num == tsFieldNum) with
+  | some f => (cleanTs arch f).getD u32Invalid
+  | none => u32Invalid
+
+/-- `compressTimestampIntoHeader`: new timestamp reference, new last timestamp and, when the timestamp goes
+into the header, the 5-bit time offset. A timestamp is compressed only when it is less than 32 s past the
+reference (which moves on roll-over only) AND less than 32 s past the last timestamp a decoder has seen. -/
+def compressTs (arch tsRef tsLast : Nat) (m : WMsg) : Nat × Nat × Option Nat :=
+  let ts := encTsOf arch m
+  let last' := trackLast arch tsLast m.fields
+  if ts == u32Invalid then (tsRef, last', none)
+  else if ts < dateTimeMin then (tsRef, last', none)
+  else if (ts + 4294967296 - tsRef) % 4294967296 > 31 || (ts + 4294967296 - tsLast) % 4294967296 > 31 then (ts, last', none)
+  else (tsRef, last', some (ts % 32))
 
 /-! ### message definition and data record bytes -/
 
@@ -132,12 +153,13 @@ def defRecord (arch i : Nat) (m : WMsg) : Bytes :=
 
 structure EncState where
   lru : Lru
-  tsRef : Nat
+  tsRef : Nat          -- e.timestampReference
+  tsLast : Nat         -- e.lastTimestamp
   deriving Repr, Inhabited
 
 /-- `encodeMessage`: bytes written for one message (definition when new, then the data record). -/
 def encodeMsg (o : Opts) (s : EncState) (m : WMsg) : EncState × Bytes :=
-  let (tsRef', off) := if o.compress then compressTs o.arch s.tsRef m else (s.tsRef, none)
+  let (tsRef', tsLast', off) := if o.compress then compressTs o.arch s.tsRef s.tsLast m else (s.tsRef, s.tsLast, none)
   let m' : WMsg := match off with
     | some _ => { m with fields := removeFirst tsFieldNum m.fields }
     | none => m
@@ -146,7 +168,7 @@ def encodeMsg (o : Opts) (s : EncState) (m : WMsg) : EncState × Bytes :=
   let hdr := match off with
     | some t => (0x80 ||| t) ||| ((i <<< 5) % 256)
     | none => i
-  ({ lru := lru', tsRef := tsRef' }, (if isNew then defRecord o.arch i m' else []) ++ (hdr :: payload m'))
+  ({ lru := lru', tsRef := tsRef', tsLast := tsLast' }, (if isNew then defRecord o.arch i m' else []) ++ (hdr :: payload m'))
 
 def encodeMsgs (o : Opts) : EncState → List WMsg → Bytes
   | _, [] => []
@@ -178,7 +200,7 @@ def validateFile (pv : Nat) (ms : List WMsg) : Option String :=
   else if pv == 16 && ms.any (fun m => !m.devs.isEmpty || m.fields.any (fun f => f.bt &&& 0x1F > 13)) then some "err:proto"
   else none
 
-def freshEnc (o : Opts) : EncState := { lru := Lru.empty o.lruCap, tsRef := 0 }
+def freshEnc (o : Opts) : EncState := { lru := Lru.empty o.lruCap, tsRef := 0, tsLast := 0 }
 
 /-- one FIT sequence as it ends up at the destination: header (with the final data size and header
 CRC), records, file CRC (of the records only — the hash is reset after the header). -/
@@ -200,32 +222,8 @@ proves that they imply the propositional forms) -/
 
 def msgOKB (m : WMsg) : Bool :=
   decide (m.num < 65536) && decide (m.fields.length ≤ 255) && decide (m.devs.length ≤ 255) &&
-  m.fields.all (fun f => decide (f.data.length ≤ 255) && validBaseType f.bt) &&
+  m.fields.all (fun f => decide (f.data.length ≤ 255) && validBaseType f.bt && f.data.all (fun b => decide (b < 256))) &&
   m.devs.all (fun d => decide (d.data.length ≤ 255))
-
-/-- split at the first field numbered 253 -/
-def splitTs : List WField → Option (List WField × WField × List WField)
-  | [] => none
-  | f :: fs =>
-    if f.num == tsFieldNum then some ([], f, fs)
-    else match splitTs fs with
-      | some (pre, g, post) => some (f :: pre, g, post)
-      | none => none
-
-def tsOKB (arch : Nat) (m : WMsg) : Bool :=
-  match splitTs m.fields with
-  | none => true
-  | some (_, f, post) =>
-    post.all (fun g => g.num != tsFieldNum) && f.tag == tagUint32 && (f.bt == 0x86 || f.bt == 0x8C) &&
-    match u32Of arch f.data with
-    | some v => decide (dateTimeMin ≤ v) && decide (v < u32Invalid)
-    | none => false
-
-def tsMonoB (arch : Nat) : Nat → List WMsg → Bool
-  | _, [] => true
-  | lo, m :: ms =>
-    tsOKB arch m && (tsOf arch m == u32Invalid || decide (lo ≤ tsOf arch m)) &&
-    tsMonoB arch (if tsOf arch m = u32Invalid then lo else tsOf arch m) ms
 
 def optsOKB (o : Opts) : Bool :=
   (o.arch == 0 || o.arch == 1) && decide (0 < o.lruCap) && decide (o.lruCap ≤ 16) && (!o.compress || decide (o.lruCap ≤ 4))
